@@ -199,12 +199,15 @@ H("C09", "c09_client_insert", "cache::sync", CLI, CB2 + "; asserts vetoed / abse
 # ---- C18 (cache level)
 IDX["C18"]["assumptions"] += [CHAN, ADDC, MREC, PARK, ARCD]
 for op in ("lookup", "insert", "remove"):
+    # the insert variant takes ~13 min on its own: thorough tier (a quick command should stay well under 15 min)
     H("C18", "c18_cache_isolation_" + op, "cache::sync", ["Cache::get", "Cache::get_mut", "Cache::get_ttl", "Cache::try_update", "Cache::try_remove", "CacheProcessor::handle_item", "KeyBuilder::build_key"],
-      "a key builder that forces two keys onto one index hash with different non-zero conflict hashes; first key resident (created <= 4 s ago, TTL <= 4 s or none: possibly expired but unswept); " + op + " of the second key, processed to quiescence", timeout=1800, mem_gb=20, cover_tags=[op])
+      "a key builder that forces two keys onto one index hash with different non-zero conflict hashes; first key resident (created <= 4 s ago, TTL <= 4 s or none: possibly expired but unswept); " + op + " of the second key, processed to quiescence", timeout=2400 if op == "insert" else 1800, mem_gb=20, cover_tags=[op], tier="thorough" if op == "insert" else "quick")
 ISOF = ["Cache::try_remove", "CacheProcessor::handle_item(Delete)", "ShardedMap::try_remove", "ShardedMap::expiration", "LFUPolicy::remove", "KeyBuilder::build_key"]
 ISOB = "a key builder that forces two keys onto one index hash with different non-zero conflict hashes; first key resident (created <= 4 s ago, TTL <= 4 s or none: possibly expired but unswept) and charged; remove of the second, absent key, its Delete processed"
 H("C06", "c06_colliding_remove", "cache::sync", ISOF, ISOB + ": the resident key stays resident AND charged", timeout=1800, mem_gb=20, cover_tags=["remove"], alias_of="c18_cache_isolation_remove")
 H("C08", "c08_colliding_remove", "cache::sync", ISOF, ISOB + ": no callback fires for the resident value", timeout=1800, mem_gb=20, cover_tags=["remove"], alias_of="c18_cache_isolation_remove")
+H("C18", "c18_store_update_ttl", "store", STF, SB + TTLB + "; the addressed entry may be expired but unswept and the conflict hash may differ: the store still answers Conflict and leaves the resident entry untouched", timeout=1200, cover_tags=["update"], cover_optional=["update vetoed"], alias_of="c04_store_update_ttl")
+IDX["C18"]["assumptions"] += [LOCKS, CLOCK]
 # ---- C20
 P("C20", CACHE_ASS + [RNG, "std::thread::spawn is stubbed by panic!() in c20_finalize_rejects_zero (the three validation errors return before any thread is spawned; what finalize does after validation is outside)"])
 for tag in ("n0", "mc0", "bs0"):
@@ -222,7 +225,8 @@ H("C12", "c12_closed_is_inert", "cache::sync", ["Cache::get", "Cache::get_mut", 
 # ---- C10
 P("C10", CACHE_ASS + ["wg::WaitGroup::wait (Condvar parking) is replaced by: run the parked processor to quiescence, then assert the WaitGroup counter is zero - on one thread 'counter still positive' IS 'blocks forever'; WaitGroup::new/add/done/waitings run as real code", "NOT decided: races of wait() with close(), barrier semantics for other threads' calls, real wake-ups (DESIGN 8)"])
 WF = ["Cache::wait", "Cache::try_update", "Cache::try_remove", "Cache::clear", "CacheProcessor::handle_item(Wait)", "CacheCleaner::handle_item(Wait)", "wg::WaitGroup::new/add/done/waitings"]
-H("C10", "c10_wait_barrier", "cache::sync", WF, "arbitrary quiescent state with <= 2 residents and room for one more entry; optionally one insert and one remove of arbitrary keys before wait()", timeout=2400, mem_gb=20)
+# ~14 min on its own: thorough tier (a quick command should stay well under 15 min); the in-flight, cleaner-path and full-buffer variants stay quick
+H("C10", "c10_wait_barrier", "cache::sync", WF, "arbitrary quiescent state with <= 2 residents and room for one more entry; optionally one insert and one remove of arbitrary keys before wait()", timeout=2400, mem_gb=20, tier="thorough")
 H("C10", "c10_wait_vs_clear", "cache::sync", WF, "as c10_wait_barrier, with a clear() landing after the Wait marker was queued so that the cleaner meets the marker", timeout=2400, mem_gb=20)
 H("C10", "c10_wait_inflight", "cache::sync", WF, "one insert of an absent key with room, already taken off the buffer by the processor (buffer empty) but not yet applied when wait() is called", timeout=2400, mem_gb=20)
 H("C10", "c10_wait_full_buffer", "cache::sync", WF, "insert buffer of size 1 already full", timeout=1800)
